@@ -88,7 +88,7 @@ theorem attach_state {s : Topo} (hc : ClosedOk s) {p n : GNode} {rel : Rel} (hf 
 def NodePost (s : Topo) (a : NodeArgs) (r : Except Err (Nid × Nat) × Topo) : Prop :=
   (∃ e, r = (.error e, s)) ∨
   (∃ n v, (∀ m ∈ s.nodes, m.nid ≠ n.nid) ∧ n.cls = .networkNode ∧ a.ntype = some n.typ ∧ n.name = a.name ∧
-     (∀ m ∈ s.nodes, m.cls = .networkNode → m.name ≠ a.name) ∧ r = (.ok v, pushNode n s))
+     (∀ m ∈ s.nodes, m.cls = .networkNode → m.name ≠ a.name) ∧ v.1 = n.nid ∧ r = (.ok v, pushNode n s))
 
 theorem NodePost.err {s a} (e : Err) : NodePost s a (.error e, s) := .inl ⟨e, rfl⟩
 
@@ -104,7 +104,7 @@ theorem nodeNew_cases (fl : Flavour) (c : Nat) (a : NodeArgs) (s : Topo) : NodeP
   refine ro_step (by ro) NodePost.err (fun dup hdup => ?_)
   refine ro_step (by ro) NodePost.err (fun _ hg => ?_)
   refine addGNode_step (NodePost.err _) (fun n hn hfresh => ?_)
-  refine .inr ⟨n, _, hfresh, by rw [hn], ?_, by rw [hn], ?_, rfl⟩
+  refine .inr ⟨n, _, hfresh, by rw [hn], ?_, by rw [hn], ?_, by rw [hn], rfl⟩
   · rw [hn]; cases h : a.ntype <;> simp [need, h] at hty ⊢; exact hty
   · have hd : dup = false := by simpa using guard_ok hg
     simp only [read_apply, Prod.mk.injEq, Except.ok.injEq, and_true] at hdup
@@ -132,14 +132,14 @@ theorem classOk_all (c : Cls) : classOk c = true := by cases c <;> decide
 
 theorem invS_addNode (fl : Flavour) (c : Nat) (a : NodeArgs) (s : Topo) (ht : TypeArgOk .networkNode a.ntype) (h : InvS s) :
     InvS (addNode fl c a s).2 := by
-  rcases addNode_cases fl c a s with ⟨e, he⟩ | ⟨n, v, hf, hc, hty, _, _, hr⟩
+  rcases addNode_cases fl c a s with ⟨e, he⟩ | ⟨n, v, hf, hc, hty, _, _, _, hr⟩
   · rw [he]; exact h
   · rw [hr]
     exact invS_push h hf (by simp [nodeOk, classOk_all, hc, ht n.typ hty]) (by simp [hc]) (by simp [hc])
 
 theorem invD_addNode (fl : Flavour) (c : Nat) (a : NodeArgs) (s : Topo) (ht : TypeArgOk .networkNode a.ntype) (h : InvD s) :
     InvD (addNode fl c a s).2 := by
-  rcases addNode_cases fl c a s with ⟨e, he⟩ | ⟨n, v, hf, hc, hty, _, _, hr⟩
+  rcases addNode_cases fl c a s with ⟨e, he⟩ | ⟨n, v, hf, hc, hty, _, _, _, hr⟩
   · rw [he]; exact h
   · rw [hr]
     exact invD_push h hf (by simp [nodeOk, classOk_all, hc, ht n.typ hty])
@@ -204,7 +204,7 @@ theorem namesOk_pushNode {s : Topo} {n : GNode} (h : NamesOk s) (hc : ClosedOk s
 /-- `add_node` keeps the whole invariant of the statement, name scopes included -/
 theorem inv_addNode_full (fl : Flavour) (c : Nat) (a : NodeArgs) (s : Topo) (ht : TypeArgOk .networkNode a.ntype) (h : Inv s) :
     Inv (addNode fl c a s).2 := by
-  rcases addNode_cases fl c a s with ⟨e, he⟩ | ⟨n, v, hf, hc, hty, hnm, hnames, hr⟩
+  rcases addNode_cases fl c a s with ⟨e, he⟩ | ⟨n, v, hf, hc, hty, hnm, hnames, _, hr⟩
   · rw [he]; exact h
   · rw [hr]
     refine ⟨invS_push h.struct hf (by simp [nodeOk, classOk_all, hc, ht n.typ hty]) (by simp [hc]) (by simp [hc]), ?_⟩
@@ -479,6 +479,9 @@ theorem preserves_vocab_connect (fl : Flavour) (c : Nat) (svc : Nid) (cache : Ca
     refine Preserves.bind (ReadOnly.preserves (by ro)) (fun _ => ?_)
     refine Preserves.bind (ReadOnly.preserves (by ro)) (fun _ => ?_)
     refine Preserves.bind (ReadOnly.preserves (by ro)) (fun _ => ?_)
+    simp only [flag_connectNamePrecheck, if_true]
+    refine Preserves.bind (ReadOnly.preserves (readOnly_guard _ _)) (fun _ => ?_)
+    refine Preserves.bind (ReadOnly.preserves (readOnly_guard _ _)) (fun _ => ?_)
     refine Preserves.bind (preserves_vocab_ifaceNew _ _ _ _ _ _ _ (by intro x hx; cases hx; decide)) (fun r => ?_)
     rcases r with ⟨cp, c1⟩
     dsimp only
@@ -492,11 +495,11 @@ theorem preserves_vocab_connect (fl : Flavour) (c : Nat) (svc : Nid) (cache : Ca
 /-- the handle cache plays no part in what `connect_interface` does to the model -/
 theorem invS_connect (fl : Flavour) (c : Nat) (svc iid : Nid) (iname : String) (cache : Cache) (s : Topo)
     (hsv : HandleOk s svc .networkService) (hcp : HandleOk s iid .connectionPoint)
-    (hfr : ∀ m ∈ s.nodes, m.nid ≠ .gen c ∧ m.nid ≠ .gen (c + 1)) (hnm : NameHyp s iname)
+    (hfr : ∀ m ∈ s.nodes, m.nid ≠ .gen c ∧ m.nid ≠ .gen (c + 1))
     (hnsp : NoSpIn s [.iface iid iname]) (h : InvS s) :
     InvS (connectInterface fl c svc cache (.iface iid iname) s).2 := by
   have hv := (preserves_vocab_connect fl c svc cache (.iface iid iname)).h s h.vocab
-  rcases connect_spec fl c svc iid iname cache s h.ids h.closed hcp hfr hnm with ⟨e, he⟩ |
+  rcases connect_spec' fl c svc iid iname cache s h.ids h.closed hcp hfr with ⟨e, he⟩ |
     ⟨sv, fi, cp, ln, nm, hsvm, hsvi, hfim, hfii, _, hcc, hci, hct, hlc, hli, hres⟩
   · rw [he]; exact h
   · rw [hres] at hv ⊢
@@ -552,11 +555,11 @@ theorem invS_connect (fl : Flavour) (c : Nat) (svc iid : Nid) (iname : String) (
 
 theorem invD_connect (fl : Flavour) (c : Nat) (svc iid : Nid) (iname : String) (cache : Cache) (s : Topo)
     (hsv : HandleOk s svc .networkService) (hcp : HandleOk s iid .connectionPoint)
-    (hfr : ∀ m ∈ s.nodes, m.nid ≠ .gen c ∧ m.nid ≠ .gen (c + 1)) (hnm : NameHyp s iname)
+    (hfr : ∀ m ∈ s.nodes, m.nid ≠ .gen c ∧ m.nid ≠ .gen (c + 1))
     (hnsp : NoSpIn s [.iface iid iname]) (h : InvD s) :
     InvD (connectInterface fl c svc cache (.iface iid iname) s).2 := by
   have hv := (preserves_vocab_connect fl c svc cache (.iface iid iname)).h s h.vocab
-  rcases connect_spec fl c svc iid iname cache s h.ids h.closed hcp hfr hnm with ⟨e, he⟩ |
+  rcases connect_spec' fl c svc iid iname cache s h.ids h.closed hcp hfr with ⟨e, he⟩ |
     ⟨sv, fi, cp, ln, nm, hsvm, hsvi, hfim, hfii, _, hcc, hci, hct, hlc, hli, hres⟩
   · rw [he]; exact h
   · rw [hres] at hv ⊢
